@@ -4,7 +4,7 @@
    balanced use of the context manager. That the implementation's caches (encoded values, object names, record-type
    bytes, merged data) do not leak is decided by the correspondence of in-process histories with the model and with a
    fresh subprocess (harness/props/c14.py). *)
-From DV Require Import Model.ApiDispatch Proofs.BuilderP.
+From DV Require Import Model.ApiDispatch Proofs.BuilderP Proofs.FileP Proofs.RegP Proofs.KeepP.
 
 Theorem C14_new_file_is_fresh : forall ps st rest,
   run_program ps st (TL [TI 20] :: rest) = TL [TI 0] :: run_program ps b_init rest.
@@ -13,5 +13,31 @@ Proof. exact new_file_is_fresh. Qed.
 Theorem C14_mode_is_the_only_process_state : forall ops, balanced ops -> forall ps st, pstate_of (run_ops ps st ops) = ps.
 Proof. exact mode_restored. Qed.
 
+(* writing the same DLISFile again. Two ingredients are theorems:
+   (1) whatever a write leaves behind (successful or not) differs from what it found only by write-time defaults put where
+       nothing was given — the user's own values, the sets, the registries, the headers and the no-format calls are
+       untouched, so the second write starts from the first one's specification plus its defaults;
+   (2) the check that precedes the encoding of a PARAMETER / COMPUTATION / CALIBRATION-MEASUREMENT object tests the axes
+       against the dimension AFTER the dimension has been derived from the values: the object a successful check leaves
+       passes that test again. Before the repair of D23 in /repo ("fix: check the axes of parameters, computations and
+       calibration measurements against the dimension after it has been derived") the test came first, an object whose
+       derived dimension contradicted its axes was written once, and the second write of the same DLISFile raised.
+   That the second write then produces the same bytes is decided per run (K-write-twice, K-api histories). *)
+Theorem C14_a_write_leaves_the_specification : forall l ps hc w,
+  let st := snd (run_actions ps b_init l) in skeeps st (fst (write hc st w)).
+Proof.
+  intros l ps hc w st.
+  apply write_keeps; [apply reachable_inv_actions; split; [apply WriteP.inv_shape_init | apply StructP.inv_struct_init]|].
+  apply reachable_inv_reg_actions; [split; [apply WriteP.inv_shape_init | apply StructP.inv_struct_init] | apply inv_reg_init].
+Qed.
+
+Theorem C14_checked_object_passes_the_axis_check_again : forall st it it',
+  run_checks st it = OK it' ->
+  (Nat.eqb (i_ty it) T_PARAMETER || Nat.eqb (i_ty it) T_COMPUTATION || Nat.eqb (i_ty it) T_CALMEAS) = true ->
+  check_axis_vs_dimension st it' = OK tt.
+Proof. exact run_checks_axis_checked. Qed.
+
 Print Assumptions C14_new_file_is_fresh.
 Print Assumptions C14_mode_is_the_only_process_state.
+Print Assumptions C14_a_write_leaves_the_specification.
+Print Assumptions C14_checked_object_passes_the_axis_check_again.
